@@ -53,7 +53,11 @@ class Z3Conv:
         elif kind == 'nonneg':
             self.side.append(v >= 0)
         d = info.get('defn')
-        if d is not None:
+        if d is not None and d[0] == 'min':
+            xs = [self.conv(x) for x in d[1]]
+            self.side.append(z3.Or(*[v == x for x in xs]))
+            self.side += [v <= x for x in xs]
+        elif d is not None:
             x = self.conv(d[1])
             if d[0] == 'sqrt':
                 self.side += [v >= 0, v * v == x]
